@@ -1,6 +1,6 @@
 //! Lock-step engine: real broker on the simulator + reference model, compared after every step.
 
-use crate::model::{Effects, Exp, Model, Observed, C};
+use crate::model::{Effects, Exp, Model, ObsView, Observed, C};
 use crate::refcodec::{self, Mode};
 use aldrin_core::message::*;
 use aldrin_core::SerializedValue;
@@ -72,6 +72,15 @@ pub fn norm(m: &Message) -> Vec<u8> {
     let mut out = m2.serialize_message().map(|b| b.to_vec()).unwrap_or_default();
     out.extend_from_slice(sem.as_bytes());
     out
+}
+
+/// Meaning of a payload (epoch-independent), for matching forwards to requests.
+pub fn payload_key(v: &SerializedValue) -> String {
+    let bytes: &[u8] = v;
+    match refcodec::decode_all(bytes, Mode::Skip) {
+        Ok(d) => format!("{:?}", refcodec::sem(&d.tree)),
+        Err(_) => format!("raw:{}", hex(bytes)),
+    }
 }
 
 pub fn short(m: &Message) -> String {
@@ -163,7 +172,7 @@ impl World {
         }
         self.run()?;
         let obs = self.drain_all();
-        let eff = self.model.step(c, &msg, &obs);
+        let eff = self.model.step(c, &msg, &ObsView::new(&obs));
         self.compare(eff, obs)
     }
 
@@ -176,6 +185,123 @@ impl World {
         let mut eff = Effects::default();
         self.model.conn_gone(&mut eff, c);
         self.compare(eff, obs)
+    }
+
+    /// Concurrent mode: all elements of the batch are handed to the transports before the
+    /// simulator runs, so the order in which the broker dequeues messages of different
+    /// connections is up to the schedule. The observed outputs must be explained by SOME
+    /// interleaving that respects each connection's own order (linearisation search).
+    pub fn inject_batch(&mut self, batch: Vec<(C, Option<Message>)>) -> Result<(), Fail> {
+        let desc: Vec<String> = batch.iter().map(|(c, m)| match m {
+            Some(m) => format!("c{} -> {}", c, short(m)),
+            None => format!("c{} hangs up", c),
+        }).collect();
+        self.history.push(format!("concurrently {{ {} }}", desc.join(" || ")));
+        for (c, m) in &batch {
+            match m {
+                Some(m) => {
+                    self.conns[*c].peer.send(m.clone());
+                }
+                None => self.conns[*c].peer.hang_up(),
+            }
+        }
+        self.run()?;
+        let obs = self.drain_all();
+        // candidate orders: all permutations that keep per-connection order
+        let n = batch.len();
+        let mut orders: Vec<Vec<usize>> = vec![];
+        fn rec(n: usize, batch: &[(C, Option<Message>)], used: &mut Vec<bool>, cur: &mut Vec<usize>, out: &mut Vec<Vec<usize>>) {
+            if cur.len() == n {
+                out.push(cur.clone());
+                return;
+            }
+            for i in 0..n {
+                if used[i] {
+                    continue;
+                }
+                // an earlier element of the same connection must already be placed
+                if (0..i).any(|j| !used[j] && batch[j].0 == batch[i].0) {
+                    continue;
+                }
+                used[i] = true;
+                cur.push(i);
+                rec(n, batch, used, cur, out);
+                cur.pop();
+                used[i] = false;
+            }
+        }
+        rec(n, &batch, &mut vec![false; n], &mut vec![], &mut orders);
+        // nothing can be observed on a connection that hangs up within the batch
+        let hung: Vec<C> = batch.iter().filter(|(_, m)| m.is_none()).map(|(c, _)| *c).collect();
+        for c in &hung {
+            self.model.unobservable.insert(*c);
+        }
+        let saved_model = self.model.clone();
+        let saved_notes = self.notes.len();
+        let mut first_err: Option<Fail> = None;
+        let mut all_errs: Vec<String> = vec![];
+        for order in &orders {
+            let view = ObsView::new(&obs);
+            let mut total = Effects::default();
+            for i in order {
+                let (c, m) = &batch[*i];
+                let eff = match m {
+                    Some(m) => self.model.step(*c, m, &view),
+                    None => {
+                        let mut e = Effects::default();
+                        self.model.conn_gone(&mut e, *c);
+                        e
+                    }
+                };
+                for (k, v) in eff.out {
+                    total.out.entry(k).or_default().extend(v);
+                }
+                total.closed.extend(eff.closed);
+                total.shutdown.extend(eff.shutdown);
+                total.notes.extend(eff.notes);
+                total.problems.extend(eff.problems);
+            }
+            // messages expected for a connection that is gone by the end of the batch may or may
+            // not have been delivered before it went away
+            for (c, mc) in &self.model.conns {
+                if !mc.alive {
+                    if let Some(v) = total.out.get_mut(c) {
+                        for e in v.iter_mut() {
+                            if let Exp::Must(m) = e {
+                                *e = Exp::May(m.clone());
+                            }
+                        }
+                    }
+                }
+            }
+            match self.compare(total, obs.clone()) {
+                Ok(()) => {
+                    if order.iter().enumerate().any(|(k, i)| k != *i) {
+                        self.notes.push("batch:reordered-linearisation");
+                    }
+                    self.notes.push("batch:linearised");
+                    for c in &hung {
+                        self.model.unobservable.remove(c);
+                    }
+                    return Ok(());
+                }
+                Err(f) => {
+                    self.model = saved_model.clone();
+                    self.notes.truncate(saved_notes);
+                    if all_errs.len() < 8 {
+                        all_errs.push(format!("order {:?}: {}: {}", order, f.signature, f.detail.lines().next().unwrap_or("")));
+                    }
+                    if first_err.is_none() {
+                        first_err = Some(f);
+                    }
+                }
+            }
+        }
+        let f = first_err.unwrap_or_else(|| Fail::new("harness:empty-batch", "no candidate order"));
+        Err(Fail::new(
+            format!("no-linearisation:{}", f.signature),
+            format!("no interleaving of the {} concurrently queued requests (respecting each connection's order, {} candidates) explains what the connections received; for the submission order: {}\ncandidates:\n{}", n, orders.len(), f.detail, all_errs.join("\n")),
+        ))
     }
 
     pub fn compare(&mut self, eff: Effects, obs: Observed) -> Result<(), Fail> {
@@ -242,28 +368,54 @@ impl World {
                             used[i] = true;
                         }
                     }
-                    Exp::Announce { cookie, max } => {
-                        for i in 0..got.len() {
-                            if used[i] {
-                                continue;
-                            }
-                            if let Message::AddChannelCapacity(a) = &got[i] {
-                                if a.cookie.0 == *cookie {
-                                    if a.capacity == 0 || a.capacity as u64 > *max {
-                                        return Err(Fail::new(
-                                            "channel:announced-exceeds-granted",
-                                            format!("sender c{} was announced {} more items on {} but the receiver's unannounced grant is {}", c, a.capacity, cookie, max),
-                                        ));
-                                    }
-                                    used[i] = true;
-                                    if let Some(ch) = self.model.chans.get_mut(cookie) {
-                                        ch.announced += a.capacity as u64;
-                                    }
-                                    break;
-                                }
+                    Exp::Either(a, b) => {
+                        let (na, nb) = (norm(a), norm(b));
+                        match (0..got.len()).find(|i| !used[*i] && (got_norm[*i] == na || got_norm[*i] == nb)) {
+                            Some(i) => used[i] = true,
+                            None => {
+                                return Err(Fail::new(
+                                    format!("missing:{}", kind_name(a)),
+                                    format!("connection c{} must receive {} or {} but got {}", c, short(a), short(b), render_list(got)),
+                                ))
                             }
                         }
                     }
+                    Exp::Announce { .. } => {}
+                }
+            }
+            // announcements of new credit to a sender: any positive amounts whose sum stays within
+            // the largest unannounced grant the model saw for that channel in this step
+            let mut bounds: BTreeMap<uuid::Uuid, u64> = BTreeMap::new();
+            for e in &exp {
+                if let Exp::Announce { cookie, max } = e {
+                    let b = bounds.entry(*cookie).or_insert(0);
+                    *b = (*b).max(*max);
+                }
+            }
+            for (cookie, max) in bounds {
+                let mut sum = 0u64;
+                for i in 0..got.len() {
+                    if used[i] {
+                        continue;
+                    }
+                    if let Message::AddChannelCapacity(a) = &got[i] {
+                        if a.cookie.0 == cookie {
+                            used[i] = true;
+                            sum += a.capacity as u64;
+                            if a.capacity == 0 {
+                                return Err(Fail::new("channel:announced-zero", format!("sender c{} was announced 0 more items on {}", c, cookie)));
+                            }
+                        }
+                    }
+                }
+                if sum > max {
+                    return Err(Fail::new(
+                        "channel:announced-exceeds-granted",
+                        format!("sender c{} was announced {} more items on {} but the receiver's unannounced grant is {}", c, sum, cookie, max),
+                    ));
+                }
+                if let Some(ch) = self.model.chans.get_mut(&cookie) {
+                    ch.announced += sum as i64;
                 }
             }
             if let Some(i) = (0..got.len()).find(|i| !used[*i]) {
@@ -294,7 +446,8 @@ impl World {
         // the end-of-current marker comes after every event tagged with that listener
         for (i, m) in got.iter().enumerate() {
             if let Message::BusListenerCurrentFinished(f) = m {
-                if got[i + 1..].iter().any(|x| matches!(x, Message::EmitBusEvent(e) if e.cookie == Some(f.cookie))) {
+                let markers = got.iter().filter(|x| matches!(x, Message::BusListenerCurrentFinished(g) if g.cookie == f.cookie)).count();
+                if markers == 1 && got[i + 1..].iter().any(|x| matches!(x, Message::EmitBusEvent(e) if e.cookie == Some(f.cookie))) {
                     return Err(Fail::new("listener:marker-before-events", format!("c{}: end-of-current marker precedes a tagged event: {}", c, render_list(got))));
                 }
             }
